@@ -269,24 +269,21 @@ def d19_4(ctx):
     _cmp_table(ctx, "EncapsulationCommands", ctx.spec("encap")["commands"])
 
 
-@rule(P, "D19.5", "T-SPEC", floor=1)
+@rule(P, "D19.5", "T-WITNESS", floor=3)
 def d19_5(ctx):
-    """get_service_status: table lookup whose default contains the status in hex."""
-    gss = ctx.model.func(f"{PU}:get_service_status")
-    good, facts = False, {}
-    param = gss.node.args.args[0].arg
-    for n in walk(gss.node):
-        if isinstance(n, ast.Return) and isinstance(n.value, ast.Call) and isinstance(n.value.func, ast.Attribute) and n.value.func.attr == "get" and len(n.value.args) == 2:
-            d = n.value.args[1]
-            facts["default"] = src(d)
-            tbl = ctx.folder.eval(n.value.func.value, gss.module)
-            if atom_name(n.value.args[0]) == param and isinstance(d, ast.JoinedStr) and isinstance(tbl, dict):
-                for fv in d.values:
-                    if isinstance(fv, ast.FormattedValue) and atom_name(fv.value) == param and fv.format_spec is not None:
-                        if "".join(x.value for x in fv.format_spec.values if isinstance(x, ast.Constant)).lower().endswith("x"):
-                            good = all(isinstance(k, int) and isinstance(v, str) and v for k, v in tbl.items())
-                            facts["entries"] = len(tbl)
-    ctx.check(good, ckey(gss), gss.node, "status -> text, default text contains the hex code", "status lookup lost its table/hex fall-back", **facts)
+    """get_service_status: every code of the status table gives the table's text; an unknown code gives a text that names the
+    code in hex.  Decided by folding on witness codes; the table's entries are all non-empty texts keyed by integers."""
+    from .common import service_status_witnesses
+
+    gss, wit = service_status_witnesses(ctx)
+    for ok, role, want, got in wit:
+        if ok is None:
+            ctx.undecided(ckey(gss, role), gss.node, f"get_service_status not foldable: {got}")
+        else:
+            ctx.check(ok, ckey(gss, role), gss.node, f"{role}: {want}", f"get_service_status ({role}) gives {got}; expected {want}")
+    tbl = ctx.folder.module_value(gss.module.name, "SERVICE_STATUS")
+    good = isinstance(tbl, dict) and all(isinstance(k, int) and isinstance(v, str) and v for k, v in tbl.items())
+    ctx.check(good, ckey(gss, "table"), gss.node, "status table: integer codes -> non-empty texts", "the status table has entries that are not integer -> non-empty text")
 
 
 @rule(P, "D19.6", "T-SPEC", floor=30)
